@@ -17,7 +17,7 @@ TITLE = "URL and Windows-path parts index into, and decode from, their parent's 
 SCHEMES = [b"http", b"HTTP", b"hTtp", b"https", b"ftp"]
 USERINFO = [b"", b"u@", b"u:p@", b":p@", b"u:@", b"u:p:q@", b"%41b@", b"u%40x:p%3A@", b"a@b@", b"u:p@q@", b"@@"]
 HOSTS = [b"example.com", b"ex%61mple.com", b"8.8.4.4", b"0x7f.1", b"2130706433", b"%31.1.1.1", b"[::1]", b"[0:0:0:0:0:0:0:1]", b"%5B::1%5D",
-         b"a-b.example.org", b"010.1.1.1", b"EXAMPLE.COM", b"[::ffff:1.2.3.4]", b"%5%42ad.example.com", b"%%35Bx.com"]
+         b"a-b.example.org", b"010.1.1.1", b"EXAMPLE.COM", b"[::ffff:1.2.3.4]", b"%5%42ad.example.com", b"%%35Bx.com", b"[fe80::1%2511]", b"[::1%25a]"]
 PORTS = [b"", b":", b":80", b":65535", b":00080"]
 SEGS = [b"a", b".", b"..", b"%2e", b"%2E%2e", b"%2F", b"%41", b"", b"b%3Fc", b"%2%45%2%65", b"%2%65"]
 QUERIES = [b"", b"?", b"?q=%41", b"?a/b?c%2Fd"]
@@ -119,6 +119,15 @@ def expected_url_children(v: bytes):
     return out
 
 
+def _zone_id_literal(v: bytes) -> bool:
+    parts = url_ref.split_url(v)
+    if not parts or "host" not in parts:
+        return False
+    a, b = parts["host"]
+    t = v[a:b]
+    return t.startswith(b"[") and t.endswith(b"]") and b"%" in t
+
+
 def _unterminated_ip_literal(v: bytes) -> bool:
     parts = url_ref.split_url(v)
     if not parts or "host" not in parts:
@@ -158,6 +167,14 @@ def check_url_node(rec, n, w, size):
     if len(got) >= 2:
         rec.mark("nontrivial", n.value)
     rec.mark("outcomes", tuple(g[0] + g[2] for g in got))
+    if got != exp and _zone_id_literal(n.value):
+        # an IPv6 literal with a zone id ([fe80::1%2511]): whether it is reported as a host part is not stated; if it is, the part must select
+        # the text between the brackets (its value, the zone spelled some canonical way, is not compared)
+        a, b = url_ref.split_url(n.value)["host"]
+        mine = [g for g in got if g[0] == "network.ipv6"]
+        if all((g[3], g[4]) == (a + 1, b - 1) for g in mine):
+            exp = [e for e in exp if e[0] != "network.ipv6"]
+            got = [g for g in got if g[0] != "network.ipv6"]
     if got != exp and _unterminated_ip_literal(n.value):
         # "[" without "]" in the host: RFC 3986 gives such an authority no decomposition, and the statement constrains the part children that
         # exist; the user name / password children may be absent (everything outside the authority is still required and checked)
